@@ -660,3 +660,189 @@ func (r *reg) passLocked() int {
 }
 
 func useReg(r *reg) int { return len(r.leak()) + len(r.snapshot()) + r.pass() + r.passLocked() }
+
+// ---- tenth batch: a contract that is relied on must be proved by somebody ----
+
+func untaggedLies(x int) int { return x }
+
+func reliesOnUntagged(x int) int { return untaggedLies(x) }
+
+// ---- eleventh batch: effects of callees without contracts ----
+
+func incCell(p *int) { *p++ }
+
+func cellThroughCall() int {
+	x := 1
+	incCell(&x)
+	return x
+}
+
+func fillSlice(xs []int) {
+	for i := range xs {
+		xs[i] = 9
+	}
+}
+
+func sliceThroughCall() int {
+	xs := make([]int, 3)
+	fillSlice(xs)
+	return xs[0]
+}
+
+func putKey(m map[string]int) { m["k"] = 1 }
+
+func mapThroughCall() int {
+	m := map[string]int{}
+	putKey(m)
+	return len(m)
+}
+
+type chain struct {
+	next *chain
+	v    int
+}
+
+func setDeep(c *chain) { c.next.next.v = 5 }
+
+func deepThroughCall(c *chain) int {
+	c.next.next.v = 1
+	setDeep(c)
+	return c.next.next.v
+}
+
+func viaGo(p *pair) int {
+	p.a = 1
+	done := make(chan bool)
+	go func() { p.a = 2; done <- true }()
+	<-done
+	return p.a
+}
+
+var hook func(*pair)
+
+func viaGlobalFunc(p *pair) int {
+	p.a = 1
+	hook(p)
+	return p.a
+}
+
+func setHook() { hook = func(p *pair) { p.a = 3 } }
+
+// ---- twelfth batch: method values, interface-typed fields, variadics, copy ----
+
+func (p *pair) bumpB() { p.b++ }
+
+func methodValue(p *pair) int {
+	p.b = 1
+	f := p.bumpB
+	f()
+	return p.b
+}
+
+func methodExpr(p *pair) int {
+	p.b = 1
+	f := (*pair).bumpB
+	f(p)
+	return p.b
+}
+
+type wrapper struct{ s setter }
+
+func viaField(w *wrapper, b *box) int {
+	b.n = 1
+	w.s.set()
+	return b.n
+}
+
+func sum(xs ...int) int {
+	t := 0
+	for _, x := range xs {
+		t += x
+	}
+	return t
+}
+
+func variadic() int { return sum(1, 2, 3) }
+
+func copyBuiltin(dst, src []int) int {
+	if len(dst) > 0 && len(src) > 0 {
+		dst[0] = 1
+		copy(dst, src)
+		return dst[0]
+	}
+	return 1
+}
+
+func appendGrow(xs []int) int {
+	ys := append(xs, 1)
+	if len(xs) > 0 {
+		ys[0] = 42
+		return xs[0]
+	}
+	return 42
+}
+
+// ---- thirteenth batch: embedding, type switches, captured loop variables ----
+
+type base struct{ n int }
+
+func (b *base) setN() { b.n = 8 }
+
+type derived struct {
+	*base
+	m int
+}
+
+type derivedVal struct {
+	base
+	m int
+}
+
+func promotedPtr(d *derived) int {
+	d.n = 1
+	d.setN()
+	return d.n
+}
+
+func promotedVal(d *derivedVal) int {
+	d.n = 1
+	d.setN()
+	return d.n
+}
+
+func embeddedAlias(d *derived, b *base) int {
+	d.base.n = 1
+	b.n = 2
+	return d.n
+}
+
+func typeSwitch(v interface{}) int {
+	switch x := v.(type) {
+	case int:
+		return x
+	case string:
+		return len(x)
+	case nil:
+		return -2
+	}
+	return -1
+}
+
+func capturedLoopVar(xs []int) int {
+	var fs []func() int
+	for i := range xs {
+		fs = append(fs, func() int { return i })
+	}
+	if len(fs) > 0 {
+		return fs[0]()
+	}
+	return 0
+}
+
+func shadow(x int) int {
+	if x > 0 {
+		x := x + 1
+		_ = x
+	}
+	return x
+}
